@@ -15,11 +15,14 @@ RULE = ("Randomised scenarios against the real `garden nrepl` TCP server (fresh 
         "eval - an eval that prints a start marker and then loops forever (silently, printing, or inside nested "
         "calls) is interrupted 0..60 ms after its marker has been received, with 0..2 further evals already queued "
         "behind it; (b) interrupt an idle session (all its requests done) and then eval; (c) close a session whose "
-        "eval is running; (d) interrupt one session while another session's eval runs; (e) interrupt an eval that is "
+        "eval is running - or was sent immediately before the close - with 0..2 further never-ending evals queued "
+        "behind it; (d) interrupt one session while another session's eval runs; (e) interrupt an eval that is "
         "blocked in a built-in (`shell::run(\"sleep\", [\"6\"])`). Oracle: the interrupted eval "
         "ends within 30 s with status `interrupted` (and `done`); every eval queued behind it, and every eval sent "
         "after an idle interrupt, runs to its normal value and is not reported interrupted; the other session's eval "
-        "is unaffected; after `close` the running eval ends within 30 s; every request gets its `done`. "
+        "is unaffected; after `close` the running eval and every eval sent to the session before the close get their `done` within "
+        "30 s (C30 promises a `done` for every request; these evals never end by themselves, so a missing `done` means "
+        "the closed session is still evaluating); every request gets its `done`. "
         "Non-trivial = the scenario interrupts a running eval with at least one eval queued behind it, or uses a "
         "server delay point; distinct = distinct scenario.")
 ASSUMPTIONS = ["an eval counts as executing once the client has received its start marker, so an interrupt sent "
@@ -32,7 +35,7 @@ MANIFEST = dict(
     category="exploration",
     technique="randomised-schedule scenario testing of the real TCP server with injected delays at named points "
               "(model-checking the interleavings is outside this technique family: see DESIGN.md)",
-    text="~160 (quick) / 6 000 (thorough) interrupt / close scenarios with generated timing; the running eval is "
+    text="~240 (quick) / 6 000 (thorough) interrupt / close scenarios with generated timing; the running eval is "
          "interrupted promptly, queued and later evals are not, other sessions are unaffected.",
     note="Trusted: the bencode client; marker-based detection that an eval is executing.",
     ref="DESIGN.md section 3, C31",
@@ -52,10 +55,10 @@ def gen(r):
     nsess = r.int(1, 2)
     hard = False
     for _ in range(r.int(2, 6)):
-        k = r.weighted([(10, "interrupt_running"), (6, "idle_then_eval"), (2, "close_running"), (4, "cross_session"),
+        k = r.weighted([(10, "interrupt_running"), (6, "idle_then_eval"), (4, "close_running"), (4, "cross_session"),
                         (1, "interrupt_blocking")])
         ph = {"k": k, "sess": r.int(0, nsess - 1), "loop": r.int(0, len(LOOPS) - 1), "wait_ms": r.choice([0, 0, 1, 5, 20, 60]),
-              "queued": r.choice([0, 0, 1, 2]), "gap_ms": r.choice([0, 0, 1, 10])}
+              "queued": r.choice([0, 0, 1, 2]), "gap_ms": r.choice([0, 0, 1, 10]), "immediate": r.int(0, 2) == 0}
         if k == "interrupt_running" and ph["queued"]:
             hard = True
         phases.append(ph)
@@ -70,7 +73,8 @@ def run_scenario(case, ctx) -> Res:
     srv = N.Server(d, case["delays"])
     cls = tuple(sorted({"phase:" + p["k"] for p in case["phases"]})) + tuple("delay:" + k for k in sorted(case["delays"]))
     hist = f"server delays {case['delays']}; " + " | ".join(
-        f"{p['k']}(sess {p['sess']}, loop {p['loop']}, wait {p['wait_ms']}ms, queued {p['queued']})" for p in case["phases"])
+        f"{p['k']}(sess {p['sess']}, loop {p['loop']}, wait {p['wait_ms']}ms, queued {p['queued']}"
+        f"{', immediate' if p.get('immediate') and p['k'] == 'close_running' else ''})" for p in case["phases"])
     if not srv.start():
         srv.stop()
         return Res(ok=True, inconclusive=True, detail="nrepl server did not start")
@@ -200,9 +204,20 @@ def run_scenario(case, ctx) -> Res:
                     return fail("interrupt does not stop the running eval within 30 s", f"eval {li} (blocking)\n--- scenario\n{hist}",
                                 classes=cls)
             elif ph["k"] == "close_running":
-                li, started = start_loop(sess, ph["loop"])
-                if not started:
-                    return fail("a looping eval never starts", f"--- scenario\n{hist}", classes=cls)
+                if ph.get("immediate"):
+                    # the close follows the eval without waiting for its start marker: the eval may still be queued
+                    li = rid("loop")
+                    c.send({"op": "eval", "id": li, "session": sess, "code": LOOPS[ph["loop"]].format(tag=li, fn=n[0])})
+                else:
+                    li, started = start_loop(sess, ph["loop"])
+                    if not started:
+                        return fail("a looping eval never starts", f"--- scenario\n{hist}", classes=cls)
+                # further never-ending evals queued behind it: the close must not let them run on
+                behind = []
+                for _ in range(ph["queued"]):
+                    qi = rid("loopq")
+                    c.send({"op": "eval", "id": qi, "session": sess, "code": LOOPS[ph["loop"]].format(tag=qi, fn=n[0])})
+                    behind.append(qi)
                 if ph["wait_ms"]:
                     time.sleep(ph["wait_ms"] / 1000.0)
                 ci = rid("close")
@@ -210,8 +225,15 @@ def run_scenario(case, ctx) -> Res:
                 if not wait_done(ci, 30):
                     return fail("close request gets no `done`", f"--- scenario\n{hist}", classes=cls)
                 if not wait_done(li, 30):
+                    if ph.get("immediate"):
+                        return fail("an eval sent just before `close` runs on after the session is closed",
+                                    f"eval {li}: {msgs_of(li)[-2:]}\n--- scenario\n{hist}", classes=cls)
                     return fail("closing a session does not stop its running eval within 30 s",
                                 f"eval {li}: {msgs_of(li)[-2:]}\n--- scenario\n{hist}", classes=cls)
+                for qi in behind:
+                    if not wait_done(qi, 30):
+                        return fail("an eval queued behind the running one runs on after the session is closed",
+                                    f"eval {qi}: {msgs_of(qi)[-2:]}\n--- scenario\n{hist}", classes=cls)
                 break
         if not srv.alive() or "panicked at" in srv.stderr_text():
             return fail("nrepl server died", f"{srv.stderr_text()[-500:]}\n--- scenario\n{hist}", classes=cls)
@@ -242,4 +264,4 @@ def show(case):
     return {"delays": case["delays"], "phases": [f"{p['k']}/s{p['sess']}/l{p['loop']}/w{p['wait_ms']}/q{p['queued']}" for p in case["phases"]]}
 
 
-SUBS = [Sub("scenarios", check, gen=gen, cases={"quick": 160, "thorough": 6000}, show=show)]
+SUBS = [Sub("scenarios", check, gen=gen, cases={"quick": 240, "thorough": 6000}, show=show)]
